@@ -1,0 +1,50 @@
+//go:build verif
+
+// Verification contracts for property C08 (point-in-time restore copies an exact, valid prefix or nothing).
+// Comment-only; read by the verification engine (govc). This file contains no executable code.
+
+package storage
+
+// ---- truncateRecordBatchToTimestamp: which records of one batch survive a cut at cutoffMs, and how the header is rewritten ----
+// Ghost sequences recorded at the scanRecord call of iteration i: gTs[i] the timestamp delta and gOd[i] the offset delta it
+// returned, gEnd[i] the reader position after it (bytes of the record area consumed). gkept is the number of records kept
+// when the batch is cut; gcrc the checksum computed for it.
+//@ spec func recTs(batch []byte, delta int64) int64 = int64(int64(be64(batch, 27)) + delta)
+//@ func truncateRecordBatchToTimestamp
+//@   ghost gTs (Array Int Int) = constArray(0)
+//@   ghost gOd (Array Int Int) = constArray(0)
+//@   ghost gEnd (Array Int Int) = constArray(0)
+//@   ghost gkept int = -1
+//@   ghost gcrc uint32 = 0
+//@   loop 1 modifies gTs, gOd, gEnd
+//@   loop 1 invariant 0 <= i && (i <= recordCount || i == 0) && keptCount == i && recordCount == int32(be32(batch, 57)) && firstTimestamp == int64(be64(batch, 27)) && firstTimestamp <= cutoffMs && gkept == -1
+//@   loop 1 invariant keptBytes == brPos(reader) && (i > 0 ==> keptBytes == gEnd[i-1]) && (i == 0 ==> lastOffsetDelta == 0) && (i > 0 ==> lastOffsetDelta == gOd[i-1])
+//@   loop 1 invariant forall j Int :: {gTs[j]} 0 <= j && j < i ==> recTs(batch, gTs[j]) <= cutoffMs && recTs(batch, gTs[j]) <= maxIncludedTimestamp
+//@   loop 1 invariant firstTimestamp <= maxIncludedTimestamp && maxIncludedTimestamp <= cutoffMs && (maxIncludedTimestamp == firstTimestamp || (exists j Int :: 0 <= j && j < i && maxIncludedTimestamp == recTs(batch, gTs[j])))
+//@   at scanRecord#1 after set gTs = store(gTs, i, ret0)
+//@   at scanRecord#1 after set gOd = store(gOd, i, ret1)
+//@   at scanRecord#1 after set gEnd = store(gEnd, i, brPos(reader))
+//@   at append#1 before set gkept = keptCount
+// the cut batch, as handed to NewRecordBatchFromBytes (which copies it: C02.private_copy); arg0 is `truncated`
+//@   at NewRecordBatchFromBytes#3 before assert [C08.cut_keeps_header_and_record_prefix] 61 <= len(arg0) && len(arg0) <= len(batch) && len(arg0) == 61 + keptBytes && 0 < gkept && gkept < recordCount && gkept == keptCount
+//@   at NewRecordBatchFromBytes#3 before assert [C08.cut_records_are_prefix] forall j Int :: 61 <= j && j < len(arg0) ==> arg0[j] == old(batch[j])
+//@   at NewRecordBatchFromBytes#3 before assert [C08.cut_untouched_header_fields] forall j Int :: (0 <= j && j < 8) || (12 <= j && j < 17) || (21 <= j && j < 23) || (27 <= j && j < 35) || (43 <= j && j < 57) ==> arg0[j] == old(batch[j])
+//@   at NewRecordBatchFromBytes#3 before assert [C08.cut_length_field] len(arg0) - 12 <= 2147483647 ==> be32(arg0, 8) == len(arg0) - 12
+//@   at NewRecordBatchFromBytes#3 before assert [C08.cut_count_field] be32(arg0, 57) == gkept
+//@   at NewRecordBatchFromBytes#3 before assert [C08.cut_last_offset_delta_field] int32(be32(arg0, 23)) == gOd[gkept-1]
+//@   at NewRecordBatchFromBytes#3 before assert [C08.cut_max_timestamp_field] int64(be64(arg0, 35)) == maxIncludedTimestamp && maxIncludedTimestamp <= cutoffMs
+//@   at NewRecordBatchFromBytes#3 before assert [C08.cut_crc_field] be32(arg0, 17) == gcrc
+//@   at NewRecordBatchFromBytes#3 before assert [C08.cut_at_record_boundary] keptBytes == gEnd[gkept-1] && (forall j Int :: {gTs[j]} 0 <= j && j < gkept ==> recTs(batch, gTs[j]) <= cutoffMs && recTs(batch, gTs[j]) <= maxIncludedTimestamp) && recTs(batch, gTs[gkept]) > cutoffMs
+// the checksum is computed over the tail [21:] of the cut batch and stored last, at [17:21]: no byte of [21:] is written after it
+// (the field values asserted above at the parse call are therefore the ones the checksum saw)
+//@   at Checksum#1 before assert [C08.crc_over_tail_from_21] sameSlice(arg0, truncated[21:])
+//@   at Checksum#1 after set gcrc = ret0
+//@   at PutUint32#4 before assert [C08.crc_stored_at_17] arg1 == gcrc && sameSlice(arg0, truncated[17:21])
+//@   ensures [C08.trunc_short_rejected] len(batch) < 61 ==> err != nil
+//@   ensures [C08.trunc_whole_when_all_at_or_before] len(batch) >= 61 && old(int64(be64(batch, 35))) <= cutoffMs && err == nil ==> result1 && !result2 && result0.Bytes == old(batch)
+//@   ensures [C08.trunc_nothing_when_all_after] len(batch) >= 61 && old(int64(be64(batch, 35))) > cutoffMs && old(int64(be64(batch, 27))) > cutoffMs ==> err == nil && !result1 && result2
+//@   ensures [C08.trunc_done_unless_whole_batch_before] err == nil && len(batch) >= 61 && old(int64(be64(batch, 35))) > cutoffMs ==> result2
+//@   ensures [C08.trunc_compressed_rejected] len(batch) >= 61 && old(int64(be64(batch, 35))) > cutoffMs && old(int64(be64(batch, 27))) <= cutoffMs && old(be16(batch, 21)) % 8 != 0 ==> err != nil
+//@   ensures [C08.trunc_keep_has_header] err == nil && result1 ==> len(result0.Bytes) >= 61 && len(result0.Bytes) <= len(batch)
+//@   ensures [C08.trunc_flags] err == nil ==> (result1 || result2) && (gkept != -1 ==> result1 && result2)
+//@   ensures [C08.trunc_uncut_batch_unchanged] err == nil && result1 && gkept == -1 ==> len(result0.Bytes) == len(batch) && forall j Int :: 0 <= j && j < len(batch) ==> result0.Bytes[j] == old(batch[j])
